@@ -880,6 +880,32 @@ func (bf *boundsFn) buildBase() {
 						la, lo := bf.lenAtom(x)
 						bf.addBase("0", 1, la, lo, 0, "len(strings.Split(s, non-empty sep)) >= 1", x)
 					}
+				// documented results of the standard search functions
+				case "strings.IndexByte", "strings.LastIndexByte", "strings.IndexRune", "bytes.IndexByte":
+					ra, ro := bf.atom(x)
+					la, lo := bf.lenAtom(cc.Args[0])
+					bf.addBase("0", -1, ra, ro, 0, "index functions return -1 or a valid index: r >= -1", x)
+					bf.addBase(ra, ro+1, la, lo, 0, "IndexByte(s, c) < len(s)", x)
+				case "strings.Index", "strings.LastIndex":
+					ra, ro := bf.atom(x)
+					la, lo := bf.lenAtom(cc.Args[0])
+					bf.addBase("0", -1, ra, ro, 0, "index functions return -1 or a valid index: r >= -1", x)
+					if sub, ok := constString(cc.Args[1]); ok {
+						bf.addBase(ra, ro+int64(len(sub)), la, lo, 0, "Index(s, sub) + len(sub) <= len(s)", x)
+					} else {
+						bf.addBase(ra, ro, la, lo, 0, "Index(s, sub) <= len(s)", x)
+					}
+				case "reflect.(Value).NumField", "reflect.(Value).Len", "reflect.(Value).NumMethod":
+					ra, ro := bf.atom(x)
+					bf.addBase("0", 0, ra, ro, 0, "a count reported by reflect is >= 0", x)
+				case "strings.Count", "bytes.Count":
+					ra, ro := bf.atom(x)
+					bf.addBase("0", 0, ra, ro, 0, "Count(...) >= 0", x)
+				case "sort.SearchStrings", "sort.SearchInts":
+					ra, ro := bf.atom(x)
+					la, lo := bf.lenAtom(cc.Args[0])
+					bf.addBase("0", 0, ra, ro, 0, "sort.Search* returns an index in [0, len]", x)
+					bf.addBase(ra, ro, la, lo, 0, "sort.Search* returns an index in [0, len]", x)
 				}
 			}
 		case *ssa.BinOp:
